@@ -248,7 +248,10 @@ class DQN(RLAlgorithm):
             q_values = self.actor(obs)
 
         # Masked random actions
-        masked_random_values = torch.rand_like(q_values) * action_mask
+        # NOTE: Masked entries must lose against a legal action that draws exactly zero
+        masked_random_values = torch.rand_like(q_values).masked_fill(
+            (1 - action_mask).bool(), -1.0
+        )
         masked_random_actions = torch.argmax(masked_random_values, dim=-1)
 
         # Masked policy actions
